@@ -76,6 +76,12 @@ func goTrackerLocalName(tracker namer.ImportTracker, localPkg string, t types.Na
 		// packages, but aren't legal go names. So we'll sanitize.
 		name = strings.ReplaceAll(name, ".", "")
 		name = strings.ReplaceAll(name, "-", "")
+		// If the import name is a Go keyword, prefix with an underscore.
+		// (Before looking for collisions: two packages whose names are
+		// the same keyword must not both be called "_keyword".)
+		if token.Lookup(name).IsKeyword() {
+			name = "_" + name
+		}
 		if _, found := tracker.PathOf(name); found || name == localLeaf {
 			// This name collides with some other package.
 			// Or, this name is tne same name as the local package,
@@ -84,11 +90,6 @@ func goTrackerLocalName(tracker namer.ImportTracker, localPkg string, t types.Na
 			// another package using the v1 name, and instead import
 			// it with a more qualified name, such as metav1.
 			continue
-		}
-
-		// If the import name is a Go keyword, prefix with an underscore.
-		if token.Lookup(name).IsKeyword() {
-			name = "_" + name
 		}
 		return name
 	}
